@@ -94,6 +94,13 @@ CLAIMS = {
          "that duration(string(d)) == d for every d are not unbounded theorems: they are evaluated on the implementation against an independent "
          "implementation of Go's algorithm for a boundary set and random log-uniform durations of both signs, and proved by computation on samples. "
          "The model transcribes duration.rs after its repair (exact integer parser)."),
+ "C16": ("PARTIAL. Theorems: the day-number <-> civil-date conversions invert each other for EVERY integer day and EVERY valid proleptic-Gregorian "
+         "date (one 400-year cycle by kernel computation, lifted to all integers through proved 146097-day / 400-year periodicity of both functions); the "
+         "fields behind every accessor are those of the local time at the timestamp's own offset (valid date whose day number is the local day, fields "
+         "reassemble the local instant) with the documented origins; == and < compare instants regardless of offset; t + d - d = t and (t + d) - t = d "
+         "whenever t + d is within chrono's range, an overflow error otherwise. Not proved: the RFC 3339 text round trip. Tied to functions.rs/objects.rs/"
+         "chrono by boundary and random timestamps through every accessor, string(), timestamp(), arithmetic and comparison, with all laws evaluated on the "
+         "implementation against an independent calendar computation."),
  "C06": ("Theorems that Eval.eval (a structural Fixpoint transcribing Value::resolve) returns the left operand's outcome "
          "and host-call log alone when && / || are decided by it, evaluates exactly one branch of ?:, and propagates a "
          "left error - for every context and operand expression, hence at every depth and inside macro bodies. Tied to the "
